@@ -392,3 +392,6 @@ def run(repo: Repo, rep: Report, tier: str) -> None:
     from .share import share_rules
 
     share_rules(repo, rep, tier, "c03", {"C03.R1": "C18.R13"}, "the two sites that generate a reader (one-shot compile, recompilation on commit) must fail the same way: fall back, never raise")
+    from .c04 import layout_fold_rule
+
+    layout_fold_rule(repo, rep, "C18.R14", 3 if tier == "thorough" else 2)
